@@ -36,6 +36,8 @@ type PropConfig struct {
 	QuickMs         int            `json:"quick_timeout_ms"`
 	InferClosurePre bool           `json:"infer_closure_pre"`
 	InferLoopInv    bool           `json:"infer_loop_inv"`
+	StagePurity     bool           `json:"stage_purity"`
+	PurityPkgs      []string       `json:"purity_packages"` // every stage closure of these packages gets the purity rule (no symbolic execution)
 }
 
 type ReplayDriver struct {
@@ -248,9 +250,19 @@ func runCheck(args []string) int {
 				drift = append(drift, w.name+": "+err.Error())
 			}
 			e.checkPooledInit(w.fn)
+			if cfg.StagePurity {
+				e.checkStagePurity(w.fn)
+			}
 		}
 		if maxDepth >= 0 && d < maxDepth {
 			e.discharge(outDir, timeout, all, runtime.NumCPU())
+		}
+	}
+	for _, p := range cfg.PurityPkgs {
+		for _, f := range e.allFunctions(p) {
+			if !genericBody(f) {
+				e.checkStagePurity(f)
+			}
 		}
 	}
 	for _, ln := range cfg.Lemmas {
